@@ -660,7 +660,9 @@ def identity(node: ir.Node, op, state: OptimizerState) -> ReturnValue:
     if input is not None and output is not None:
         # NOTE: backward shape inference
         try:
-            input.shape = _merge_shapes(input.shape, output.shape)
+            if not input.is_graph_input():
+                # (the declared type of a graph input is the model's interface: never refine it)
+                input.shape = _merge_shapes(input.shape, output.shape)
         except Exception as e:
             logger.warning(
                 "[Constant folder] Cannot merge shapes on Identity node '%s' "
